@@ -2497,6 +2497,13 @@ class Interp:
             a = A()
             k = self.const_int(f.targs[0])
             return a[0][k]
+        if s in ('std::toupper', 'std::tolower', 'toupper', 'tolower'):
+            a = A()
+            c = a[0]
+            if isinstance(c, str) and len(c) == 1:
+                self.fire('char-case')
+                return c.upper() if s.endswith('upper') else c.lower()
+            raise Unsupported('%s of a non-constant character' % s)
         if s in ('std::isfinite', 'std::isnan', 'std::isinf', 'isfinite', 'isnan', 'isinf'):
             a = A()
             nm = s.split('::')[-1]
